@@ -519,26 +519,22 @@ theorem parse_failure_fails (w : Walker) (lines : List Bytes) (h : parseAll line
 
 /-! ## 6. every other register: set from its rule, or unknown when the rule fails -/
 
-/-- **C06.6 (`reg_set_or_unknown`)** After a successful walk with rule map `m` and CFA `cfa`, for a
-    register `r` of the walker:
+/-- **C06.6 (`reg_set_or_unknown`)** "each other register is set from its rule or marked unknown
+    when its rule fails". After a successful walk with rule map `m` and CFA `cfa`, for a register
+    `r` of the walker:
     * if `p = (label, expr)` is the one rule whose label denotes `r` (directly or through an
-      alias), the caller's `r` is the rule's value when it evaluates (with the CFA available) and
-      fits the register width, and **unknown** when the rule fails — even if the callee's value
-      had been forwarded;
-    * if no rule's label denotes `r`, the caller's `r` is what was forwarded from the callee.
-
-    The remaining case is stated as it is in the code: a rule whose value does **not fit** the
-    register (32-bit walkers only) leaves the forwarded value in place — `set_caller_register`
-    fails and `walk_with_stack_cfi` ignores it. The property text asks for "set or unknown"; the
-    check reports this as the known finding `C06-unfit-value-keeps-forwarded-register`
-    (`fits_of_ptr8` shows it cannot happen on 64-bit walkers). -/
+      alias), the caller's `r` is the rule's value when the rule evaluates (with the CFA
+      available) **and** the value fits the register width, and **unknown** otherwise — even if
+      the callee's value had been forwarded (a value the register cannot hold counts as a failed
+      rule: fix 15b778b; on 64-bit walkers every value fits, `fits_of_ptr8`);
+    * if no rule's label denotes `r`, the caller's `r` is what was forwarded from the callee. -/
 theorem reg_set_or_unknown (w : Walker) (lines : List Bytes) (c : Caller)
     (h : walkCfi w lines = some c) :
     ∃ m cfa, parseAll lines [] = some m ∧ c.cfa = some cfa ∧
       (∀ r p, p ∈ others m → w.memo p.1 = some r →
           (∀ q ∈ others m, w.memo q.1 = some r → q = p) →
           c.get r = match evalCfi w.env (some cfa) p.2 with
-                    | some v => if w.fits v then some v else lookupName w.fwd r
+                    | some v => if w.fits v then some v else none
                     | none => none) ∧
       (∀ r, (∀ q ∈ others m, w.memo q.1 ≠ some r) → c.get r = lookupName w.fwd r) := by
   obtain ⟨m, cfaE, raE, cfa, ra, hm, _, _, _, _, _, _, rfl⟩ := (walkCfi_some_iff w lines c).mp h
@@ -556,7 +552,7 @@ theorem reg_set_or_unknown (w : Walker) (lines : List Bytes) (c : Caller)
     rw [sortOthers, foldl_upd_of_not_memo w cfa r _ _ (fun q hq => hnone q (hperm.mem_iff.mp hq))]
     rfl
 
-/-- on a 64-bit walker every value fits: the "set or unknown" dichotomy is exact -/
+/-- on a 64-bit walker every value fits: the register is set exactly when its rule evaluates -/
 theorem fits_of_ptr8 (w : Walker) (hp : w.ptr = 8) (v : UInt64) : w.fits v = true := by
   simp only [Walker.fits, hp, decide_eq_true_eq]
   exact v.toNat_lt
